@@ -23,7 +23,11 @@ TraceNext ==
          \* whether the search root itself (whose relative name is empty) is hit by an exclude
          \* glob such as "*" is not settled by the documentation: then it may or may not be returned
          rootfree == \E k \in 1..Len(e.filter.exclude) : CompMatch(e.filter.exclude[k].items, <<>>)
-         drop == IF rootfree THEN {root} ELSE {}
+         \* likewise a pattern's own literal base directory whose name an exclude glob matches: the search
+         \* still descends into it (it is what the caller asked to search), whether it is itself a result
+         \* is left open
+         bases == { [path |-> BaseOf(e.filter.include[k]), dir |-> TRUE] : k \in 1..Len(e.filter.include) }
+         drop == (IF rootfree THEN {root} ELSE {}) \cup { b \in bases : b.path # <<>> /\ ExcludeHit(e.filter, b) }
          sel == Selected(tree, e.filter) \ drop
          got == ToSet(e.found) \ drop IN
      /\ Need(e.exit = 0, "ConfigureSucceeds", e.exit)
